@@ -64,14 +64,17 @@ def interp (j : Json) : Except String Json := do
   pure (Json.arr out.toArray)
 
 /-- {"kind":"interp"|"comp","eps","ghost","axes","vol":[flat],"data":[flat],"point":[..],"amount"}
--> null (DomainError) | {"data":[flat],"before":integral,"after":integral} -/
+-> null (DomainError) | {"data":[flat],"before":integral,"after":integral}; with "ghost":true (compiled
+inserter only) "data" is the padded array and the integrals are taken over its valid cells -/
 def insert (j : Json) : Except String Json := do
   let kind ← fldS j "kind"
   let eps ← fldQ j "eps"
   let ghost ← fldB j "ghost"
   let axes ← fldAxes j "axes"
-  let shape := axes.map (·.size)
-  let vol := arrFn shape (← fldQs j "vol").toArray
+  let sizes := axes.map (·.size)
+  -- in ghost mode the data array is the padded one, the volumes are those of the valid cells
+  let shape := if ghost then sizes.map (· + 2) else sizes
+  let vol := arrFn sizes (← fldQs j "vol").toArray
   let data := arrFn shape (← fldQs j "data").toArray
   let p ← fldQs j "point"
   let amount ← fldQ j "amount"
@@ -81,8 +84,9 @@ def insert (j : Json) : Except String Json := do
   match r with
   | none => pure Json.null
   | some d =>
+    let inner : (Idx → Rat) → Idx → Rat := fun f c => if ghost then f (c.map (· + 1)) else f c
     pure (Json.mkObj [("data", jQs ((cells shape).map d)),
-      ("before", jQ (integral shape vol data)), ("after", jQ (integral shape vol d))])
+      ("before", jQ (integral sizes vol (inner data))), ("after", jQ (integral sizes vol (inner d)))])
 
 def handlers : List (String × Handler) :=
   [("c16.axis", axis), ("c16.interp", interp), ("c16.insert", insert)]
